@@ -92,8 +92,14 @@ Recv == LET ms == StateName(R.state)
         IF pend = <<>> THEN Bad("recv:no-packet-was-handed-in")
         ELSE IF [state |-> Head(pend).state, my |-> Head(pend).my, your |-> Head(pend).your]
                   # [state |-> ms, my |-> R.my, your |-> R.your] THEN Bad("recv:not-the-next-packet")
+        \* a wrong transition is reported and the monitor then follows the implementation's state (no latch),
+        \* so that everything after it - later steps, the recovery at the end - is still judged
         ELSE IF got # want
-          THEN Bad("recv:state=" \o ms \o ":local=" \o local \o "->" \o got \o ",want=" \o want)
+          THEN /\ PrintT(<<"VERIF-BAD", l, "recv:state=" \o ms \o ":local=" \o local \o "->" \o got \o ",want=" \o want>>)
+               /\ local' = got /\ rd' = R.rdisc /\ pend' = Tail(pend)
+               /\ det' = [ms |-> Head(pend).mult * (IF cfg.rxms > Head(pend).dtxms THEN cfg.rxms ELSE Head(pend).dtxms),
+                          mult |-> Head(pend).mult]
+               /\ UNCHANGED <<cfg, idle, failed>>
         ELSE IF R.remote # R.state THEN Bad("recv:remote-state-not-recorded:state=" \o ms)
         \* RFC 5880 6.8.6: "Set bfd.RemoteDiscr to the value of My Discriminator" - for every accepted
         \* packet; a session that keeps a stale value echoes a Your Discriminator its (restarted or
@@ -137,7 +143,11 @@ Send == IF StateName(R.state) # local
         ELSE /\ idle' = IF idle >= 0 THEN idle + 1 ELSE idle
              /\ UNCHANGED <<local, rd, pend, det, cfg, failed>>
 
-Settle == IF ~R.up \/ local # "Up" THEN Bad("recover:not-up-after-quiet-period:local=" \o local)
+\* AdminDown is reachable only through a reported deviation (Rfc never enters it); a session that sits there
+\* at the end was wedged by a received AdminDown (its own, or the one its wedged peer now advertises)
+Settle == IF ~R.up \/ local # "Up"
+            THEN Bad(IF local = "AdminDown" THEN "recover:not-up:after-received-admindown"
+                     ELSE "recover:not-up-after-quiet-period:local=" \o local)
           ELSE /\ Drift(R.isup, "settle:IsUp-differs-from-hook-state")
                /\ UNCHANGED <<local, rd, pend, det, cfg, idle, failed>>
 
